@@ -120,11 +120,18 @@ func loadWorld(repo, verif string) (*World, error) {
 		mirror := filepath.Join(verif, "contracts", "repo", rel, contractFileName)
 		var src []byte
 		var from, file string
-		if b, err := os.ReadFile(inRepo); err == nil {
-			src, from, file = b, "repo", inRepo
-		} else if b, err := os.ReadFile(mirror); err == nil {
-			src, from, file = b, "mirror", mirror
-		} else {
+		rb, rerr := os.ReadFile(inRepo)
+		mb, merr := os.ReadFile(mirror)
+		switch {
+		case merr == nil && rerr == nil && string(rb) == string(mb):
+			src, from, file = mb, "in /repo, identical to /verif mirror", mirror
+		case merr == nil && rerr == nil:
+			src, from, file = mb, "in /repo but differs from /verif mirror (mirror used)", mirror
+		case merr == nil:
+			src, from, file = mb, "missing in /repo (mirror used)", mirror
+		case rerr == nil:
+			src, from, file = rb, "only in /repo", inRepo
+		default:
 			continue
 		}
 		w.contractFilesInRepo[p.PkgPath] = from
